@@ -472,6 +472,21 @@ func planFor(prop, tier string) (*plan, error) {
 				}
 			}
 		}
+		// a user emitter: reports must not cost goroutines
+		for _, n := range []string{"chain2", "fork"} {
+			f := exprConc(pg.Shape(n))
+			f.Emitters = "1"
+			ps = append(ps, flowProg(f, "EMIT:"+n))
+		}
+		{
+			q := &pg.Parallel{Conc: "expr", Emitters: "1", Items: []pg.Item{{Kind: "slice", Idx: true, Err: true}}}
+			ps = append(ps, parProg(q, "EMIT:PAR-slice"))
+		}
+		// a wide limit (one above a ladder of sizes): all `limit` elements of a slice must run at once
+		for _, w := range []int{17, 65} {
+			q := &pg.Parallel{Conc: "expr", Items: []pg.Item{{Kind: "slice", Idx: true, Err: true}}}
+			ps = append(ps, parProg(q, fmt.Sprintf("wide:%d", w)))
+		}
 		// predicates are user functions too
 		for _, n := range []string{"fork", "indep3"} {
 			for _, f := range pg.WithPredFallback(pg.Shape(n), []string{"none", "shared"}, 1) {
@@ -537,6 +552,39 @@ func planFor(prop, tier string) (*plan, error) {
 					out = append(out, predCombos(p, base(p, n))...)
 				}
 				return out
+			}
+			if strings.HasPrefix(p.Fam, "EMIT:") {
+				for _, n := range []int{1, 2} {
+					for _, ticks := range []int{1, 2} {
+						if n == 2 && ticks == 2 && !th {
+							continue
+						}
+						sc := base(p, n)
+						sc.Ticks = ticks
+						out = append(out, sc)
+					}
+				}
+				return out
+			}
+			if strings.HasPrefix(p.Fam, "wide:") {
+				// boundary probe: first schedules of the zero-preemption search only (reported as bounded)
+				var w int
+				fmt.Sscanf(p.Fam, "wide:%d", &w)
+				sc := base(p, w)
+				el := make([]uint64, w)
+				for i := range el {
+					el[i] = uint64(i + 1)
+				}
+				sc.Colls = [][]uint64{el}
+				sc = withDec(sc, []string{pg.ItemID(p.ID, 0)}, probe.Bar)
+				sc.OverN = w
+				sc.PreemptBound = 1
+				sc.MaxExecs = 16
+				if th {
+					sc.MaxExecs = 128
+				}
+				sc.Note = "bounded"
+				return []genrt.Scenario{sc}
 			}
 			if strings.HasPrefix(p.Fam, "over:") {
 				// limit+1 functions that can only all return if they run at the same time
